@@ -1,5 +1,6 @@
 import VermouthProofs.C16
 import VermouthProofs.C16_Conect
+import VermouthProofs.C16_Ter
 /-!
 # C16 — structure files round-trip: what is written is read back
 
@@ -226,5 +227,45 @@ theorem conect_roundtrip (L : PdbLayout) (ids : List Nat) (hne : ids ≠ [])
 theorem conect_chunks (n : Nat) (l : List Nat) (hn : n ≠ 0) :
     (chunks n l).flatten = l ∧ ∀ c ∈ chunks n l, c ≠ [] ∧ c.length ≤ n :=
   ⟨chunks_flatten n l hn, chunks_bounds n l⟩
+
+/-! ## TER records -/
+
+/-- A written line that starts with a six-column record name (`q` padded with blanks `b`) which the
+dispatcher maps to "end of molecule" is taken as such by the reader whatever follows in the line
+(over-long or odd residue data, a '#', anything). -/
+theorem reads_as_finish (L : PdbLayout) (excl : List (List Char)) (ignh : Bool) (q b X : List Char)
+    (hlen : (q ++ b).length = 6) (hq : strip q = q) (hqL : stripL q = q) (hqne : q ≠ [])
+    (hb : b.all isWs = true) (hhash : (q ++ b).all (· ≠ '#') = true) (hkind : classify q = .finish) :
+    ReadsAsFinish L excl ignh (q ++ b ++ X) := by
+  intro st
+  obtain ⟨hne, hname⟩ := record_name q b X hlen hq hqL hqne hb hhash
+  have hlq : q.length ≤ 6 := by simp at hlen; omega
+  have hc : classify (decomment (q ++ b ++ X)) = .finish := by
+    rw [← hkind]
+    unfold classify
+    rw [hname, List.take_of_length_le hlq, hq]
+  unfold pdbStep
+  simp only [hne, if_false, hc]
+
+/-- **ter_split.** A file that consists, molecule after molecule, of lines the reader takes as
+atoms followed by a line it takes as end-of-molecule, and then the END line, is read back as
+exactly these molecules: same number, same atoms, same order.  (That the ATOM lines produced by
+the writer are read as the atoms written is `fields_roundtrip`; that its TER and END lines are
+end-of-molecule lines is `ter_end_lines_finish` in `C16Tables`.) -/
+theorem ter_split (L : PdbLayout) (excl : List (List Char)) (ignh : Bool)
+    (groups : List (List (List Char × PAtom) × List Char)) (endl : List Char)
+    (h : ∀ g ∈ groups, g.1 ≠ [] ∧ (∀ p ∈ g.1, ReadsAsAtom L excl ignh p.1 p.2) ∧ ReadsAsFinish L excl ignh g.2)
+    (hend : ReadsAsFinish L excl ignh endl) :
+    ∃ r, readPdb L excl ignh (groupLines groups ++ [endl]) = .ok r ∧
+      r.mols = groups.map (fun g => g.1.map Prod.snd) ∧ r.bonds = [] := by
+  have hfin : ∀ st : PState, st.active = [] → st.finish = st := by
+    intro st h; unfold PState.finish; simp [h]
+  unfold readPdb
+  rw [pdbFold_append, pdbFold_groups L excl ignh groups ⟨[], [], []⟩ rfl h]
+  simp only [pdbFold]
+  rw [hend, hfin _ rfl]
+  simp only [bind, Except.bind, pure, Except.pure]
+  rw [hfin _ rfl]
+  simp [doConect]
 
 end C16
